@@ -51,16 +51,24 @@ namespace ikos {
 
 /* Notes about the % operator
  *
- * The semantics of r = n % d is to set r to "n mod d". The sign of
- * the d is ignored and r is always non-negative.
+ * Number::operator/ and Number::operator% truncate towards zero: the
+ * sign of d is ignored and r = n % d has the sign of n (it is negative
+ * if n is negative and d does not divide n).
  *
  * We assume that n % d (also n /d) raises a runtime error if d==0.
  */
 
 template <typename Number> void congruence<Number>::normalize(void) {
-  // Set to standard form: 0 <= b < a for a != 0
+  // Set to standard form: a >= 0 and 0 <= b < a for a != 0.
+  // (operator% truncates, so its result has the sign of m_b.)
+  if (m_a < 0) {
+    m_a = -m_a;
+  }
   if (m_a != 0) {
     m_b = m_b % m_a;
+    if (m_b < 0) {
+      m_b = m_b + m_a;
+    }
   }
 }
 
@@ -236,14 +244,24 @@ congruence<Number>::operator&(const congruence<Number> &o) const {
     }
   } else {
     // pre: a and o.a != 0
-    Number x = gcd(m_a, o.m_a);
-    if (m_b % x == (o.m_b % x)) {
-      // the part max(b,o.b) needs to be verified. What we really
-      // want is to find b'' such that
-      // 1) b'' % lcm(a,a') == b  % lcm(a,a'), and
-      // 2) b'' % lcm(a,a') == b' % lcm(a,a').
-      // An algorithm for that is provided in Granger'89.
-      return congruence<Number>(lcm(m_a, o.m_a), max(m_b, o.m_b));
+    // The meet is not empty iff gcd(a,a') divides b'-b, and then it
+    // is lcm(a,a')Z + b'' where b'' = b (mod a) and b'' = b' (mod a')
+    // (Granger'89). The extended Euclidean algorithm computes
+    // x = gcd(a,a') and s such that s*a = x (mod a'), hence
+    // b'' = b + a*s*((b'-b)/x).
+    Number x = m_a, r = o.m_a, s(1), t(0);
+    while (r != 0) {
+      Number q = x / r;
+      Number tmp = x - q * r;
+      x = r;
+      r = tmp;
+      tmp = s - q * t;
+      s = t;
+      t = tmp;
+    }
+    if ((o.m_b - m_b) % x == 0) {
+      return congruence<Number>(lcm(m_a, o.m_a),
+                                m_b + m_a * (s * ((o.m_b - m_b) / x)));
     } else {
       return congruence<Number>::bottom();
     }
